@@ -128,7 +128,7 @@ pub proof fn lemma_comb_merge(done: Seq<u64>, cur: Seq<u64>, i: int, cell: u64, 
 
 /// what the caller of compact() gets from `refines(out, sorted-dedup(cells))`
 pub proof fn lemma_compact_final(cells: Seq<u64>, init: Seq<u64>, out: Seq<u64>)
-    requires all_canonical(cells), init.to_set() == cells.to_set(), init.no_duplicates(), refines(out, init),
+    requires all_decodable(cells), init.to_set() == canon_set(cells, cells.len() as int), init.no_duplicates(), refines(out, init),
     ensures
         all_canonical(out),
         forall|m: int| max_res_le(cells, m) ==> max_res_le(out, m),
